@@ -115,6 +115,17 @@ pub open spec fn spec_elig(input: u64, w: u64) -> int {
 }
 """
 
+THRESH_SPEC = r"""
+pub open spec fn spec_f(n: nat) -> nat { if n >= 1 { ((n - 1) / 5) as nat } else { 0 } }
+pub open spec fn spec_quorum(n: nat) -> int { n - spec_f(n) }
+pub open spec fn spec_subquorum(n: nat) -> int { n - 3 * spec_f(n) }
+"""
+THRESH_CONTRACT = {
+    "max_faulty_weight": "\n    requires total_weight >= 1,\n    ensures r as nat == spec_f(total_weight as nat),\n",
+    "quorum_threshold": "\n    requires total_weight >= 1,\n    ensures r as int == spec_quorum(total_weight as nat),\n",
+    "subquorum_threshold": "\n    requires total_weight >= 1,\n    ensures r as int == spec_subquorum(total_weight as nat),\n",
+}
+
 LEMMAS = r"""
 // ---------------- corollaries of the contracts (C11) ----------------
 pub proof fn lemma_prefix_mono(vec: Seq<ValidatorInfo>, leaders: Seq<usize>, a: int, b: int)
@@ -193,6 +204,18 @@ def build(repo):
     U.item(F, "struct LeaderSelection")
     U.item(F, "struct Schedule", subs=[("BTreeMap<validator::PublicKey, usize>", "KeyIndex")])
     U.raw(SPEC, label="spec")
+    # small accessors (so that code using them still type-checks after a refactoring); contracts say what they return
+    U.fn(F, "impl Schedule :: fn len", wrap="impl Schedule", ret="r", spec="    ensures r == self.vec@.len(),\n")
+    U.fn(F, "impl Schedule :: fn total_weight", wrap="impl Schedule", ret="r", spec="    ensures r == self.total_weight,\n")
+    U.fn(F, "impl Schedule :: fn leaders", wrap="impl Schedule", ret="r", spec="    ensures r@ == self.leaders@,\n")
+    U.fn(F, "impl Schedule :: fn leader_selection", wrap="impl Schedule", ret="r", spec="    ensures *r == self.leader_selection,\n")
+    # C07: the thresholds a Schedule reports are those of its TOTAL weight
+    U.raw(THRESH_SPEC, label="threshold spec", props=["C07"])
+    for f in ("max_faulty_weight", "quorum_threshold", "subquorum_threshold"):
+        U.fn(F, "fn " + f, ret="r", props=["C07"], spec=THRESH_CONTRACT[f])
+    for f in ("max_faulty_weight", "quorum_threshold", "subquorum_threshold"):
+        U.fn(F, "impl Schedule :: fn " + f, wrap="impl Schedule", ret="r", props=["C07"],
+             spec="    requires self.wf(),\n" + THRESH_CONTRACT[f].split("\n")[2].replace("total_weight", "self.total_weight") + "\n")
     U.fn(F, "impl Schedule :: fn get", wrap="impl Schedule", ret="r", spec="""
     ensures index < self.vec@.len() ==> r == Some(&self.vec@[index as int]),
             index >= self.vec@.len() ==> r.is_none(),
